@@ -241,7 +241,7 @@ func init() {
 	mut("C13", "Select.Format stops printing HAVING", "sqlparser/ast_methods.go", "		node.From, node.Where,\n		node.GroupBy, node.Having, node.OrderBy,", "		node.From, node.Where,\n		node.GroupBy, node.OrderBy, node.OrderBy,", "R13.1", "Select.Format|field Having")
 	mut("C13", "cast suffix dropped from literals", "sqlparser/ast_methods.go", "	if len(node.CastType) > 0 {\n		buf.Myprintf(\"%s\", node.CastType)\n	}\n}\n\nfunc (node *SQLVal) walkSubtree", "	if len(node.Val) > 1<<30 {\n		buf.Myprintf(\"%s\", node.Val)\n	}\n}\n\nfunc (node *SQLVal) walkSubtree", "R13.2", "field CastType")
 	mut("C13", "parentheses dropped", "sqlparser/ast_methods.go", "buf.Myprintf(\"(%v)\", node.Expr)", "buf.Myprintf(\"%v\", node.Expr)", "R13.2", "ParenExpr")
-	mut("C13", "searchable rewrite also edits the WHERE root", "hmac/decryptor/mysql/hashQuery.go", "			rVal.Type = sqlparser.HexNum\n", "			rVal.Type = sqlparser.HexNum\n			item.Expr.Escape = nil\n", "R13.3", "ComparisonExpr.Escape")
+	mut("C13", "searchable rewrite also edits the WHERE root", "hmac/decryptor/mysql/hashQuery.go", "			hexNumLiteral = rVal\n", "			hexNumLiteral = rVal\n			item.Expr.Escape = nil\n", "R13.3", "ComparisonExpr.Escape")
 }
 
 func ruleR134(p *Program, r *Report) {
